@@ -47,6 +47,22 @@ class XmlEventWriter(XmlWriter):
             short_empty_elements=True,
         )
 
+    def set_characters(self, data: str) -> None:
+        """Characters notification receiver.
+
+        Carriage returns are written as character references, otherwise
+        xml parsers normalize them to line feeds.
+
+        Args:
+            data: The characters data to write
+        """
+        head, *rest = data.split("\r")
+        self.handler.characters(head)
+        for part in rest:
+            # The only generator method that writes content verbatim
+            self.handler.ignorableWhitespace("&#13;")
+            self.handler.characters(part)
+
     def start_tag(self, qname: str) -> None:
         """Start tag notification receiver.
 
